@@ -36,6 +36,18 @@ func (s *scope) lookup(varname string) string {
 	return ""
 }
 
+// newname generates a new JS name for the given variable name without
+// binding it.
+func (s *scope) newname(varname string) string {
+	s.n++
+	return varname + strconv.Itoa(s.n)
+}
+
+// bind maps the Soy variable to the given JS name in the current scope.
+func (s *scope) bind(varname, genName string) {
+	s.stack[len(s.stack)-1][varname] = genName
+}
+
 func (s *scope) pushForRange(loopVar string) (lVar, lLimit string) {
 	s.n++
 	n := strconv.Itoa(s.n)
